@@ -17,9 +17,13 @@ PROP = dict(
                  'positions are well-formed (produced by Move / FromSquares), reserves within the byte fields'],
 )
 MANIFEST = dict(
-    text="The four counts of ai.CountThreats are compared, model vs implementation, on every generated position; whenever the counts of the "
-         "side to move are positive a one-ply search with the implementation (AllMoves/Move/GameOver) and, independently, with a rules oracle "
-         "(own move enumeration, rulesMove, depth-first road search) must each find a legal move that completes a road of the mover. Coq: "
-         "lemmas towards threats_sound over the bit-level model (see Properties/C19.v for what is proved).",
-    ref='5.19', technique='Coq lemmas over the bit-level CountThreats model + model/implementation differential + one-ply search oracle (implementation and independent rules)',
-    note="Trusted: Coq kernel, extraction, transcription of CountThreats (validated by execution), generators, the rules oracle.")
+    text="Coq theorem threats_sound over the bit-level models (transcriptions of ai.CountThreats, MovePreallocated, GameOver/WinDetails): for "
+         "every position satisfying C02's invariant at ply >= 2, if the placement-or-slide count of the side to move is positive (and the mover "
+         "has a piece left) there is a move that the move model accepts and after which the end-of-game model reports game over by road, won by "
+         "the mover; proved via: every set bit of a group's placement map joins edge-touching connected parts (pmap_sound), every set bit of its "
+         "slide map has a neighbouring free flat whose removal keeps the parts connected (tmap_sound), the one-piece one-step slide branch of "
+         "the move model (mv_slide1), and C02's flood-fill/road theorems. The four counts are compared, model vs implementation, on every "
+         "generated position; whenever the mover's counts are positive a one-ply search with the implementation and, independently, with a "
+         "rules oracle (own move enumeration, DFS roads) must each find a legal road-completing move.",
+    ref='5.19', technique='Coq proof (bit-level CountThreats sound w.r.t. the move and end-of-game models) + model/implementation differential + one-ply search oracle (implementation and independent rules)',
+    note="Trusted: Coq kernel, extraction, transcriptions of CountThreats/MovePreallocated/GameOver (validated by execution, C01/C02/C19 drivers), generators, the rules oracle.")
